@@ -247,6 +247,15 @@ PROPS = {
         rule="even cases: emission (1-6 fields, random tags/values/config); odd cases: lookup (all-int struct, one probed key of 8 kinds + possibly one known key); distinct by descriptor text",
         trusted_base=COMMON_TB + ["Go regexp semantics of the two snake-case expressions are modelled by hand and tied by STRUCT.EMIT on names with acronyms, digits and underscores"],
     ),
+    "C20": dict(
+        claim="Lean model of the iterator's recursion support over an arbitrary heap (CE/Marshal/Graph.lean: the duplicate-pointer pass, then marker on the first visit of a duplicated pointer, reference on later visits, pointee emitted once) and theorems for every heap, every shared set and every root: in the emitted stream every marker introduces a pointer not named before and every reference names a pointer whose marker was already emitted (references_follow_their_markers, proved by mutual induction over the three emission functions), the pointers named at the end are exactly the markers emitted. "
+              "Harness: random pointer graphs over struct, slice and map nodes (1-12 nodes quick, 1-60 thorough; random sharing, back-edges, self-loops, nil pointers) marshaled with RecursionSupport to CBE and CTE under a watchdog and unmarshaled into the same type: the rebuilt graph must be isomorphic to the original (parallel walk building the bijection: same sharing, same cycles, equal values); for graphs without maps the real iterator's event stream must be the model's (GRAPH.EMIT)",
+        note="partial: termination of the emission (the duplicate pass marks a pointer on every cycle) is not yet a theorem (watchdog + the GRAPH.EMIT correspondence, whose model side uses bounded fuel that is never exhausted); the builder's reference filler is not modelled: the isomorphism is decided by the oracle on the implementation. Unchanged tree: no violation found",
+        level="proof", n_quick=3000, n_thorough=100000, shards=16, timeout_quick=900,
+        lean_modules=["CE.Props.C20", "CE.Marshal.GraphProofs"],
+        rule="case i: feature level i mod 4 (Next only / +Alt / +slices / +maps); graph = per node random Next, Alt, Kids, ByName targets (nil with p=1/3); distinct by graph descriptor; non-trivial = more than one node",
+        trusted_base=COMMON_TB + ["github.com/kstenerud/go-duplicates FindDuplicatePointers is modelled (findDups) and tied by GRAPH.EMIT"],
+    ),
     # NEW-ENTRIES-ABOVE
 }
 
